@@ -176,7 +176,8 @@ def run(tier, seed, rep):
             panicked = any("proc-macro derive panicked" in (d.get("message") or "") or "proc macro panicked" in (d.get("message") or "") for d in diags)
             ev = dict(op="compile", inst=n, ok=ok, panicked=panicked, spans=spans, item=item, variant=vrange, msgs=msgs, **x)
             return ev, src
-        res = core.pmap(compile_one, list(enumerate(insts, 1)))
+        todo = [(n, x) for n, x in enumerate(insts, 1) if core.only_defs() is None or n in core.only_defs()]
+        res = core.pmap(compile_one, todo)
         evs = [r[0] for r in res]
         srcs = {r[0]["inst"]: r[1] for r in res}
         groups = [[e] for e in evs]
@@ -185,7 +186,7 @@ def run(tier, seed, rep):
             rep.violation(finding_key(ev, ev["ok"], ev["panicked"]),
                           "unsupported input is not rejected with an error at the item (%s on %s, %s %s %s): compiled=%s panicked=%s"
                           % (ev["rule"], ev["derive"], ev["kw"], ev["shape"], ev["pos"], ev["ok"], ev["panicked"]),
-                          dict(instance={k: ev[k] for k in ("rule", "derive", "kw", "shape", "pos", "split")}, messages=ev["msgs"], tlc=text,
+                          dict(definition=dict(id=ev["inst"]), instance={k: ev[k] for k in ("rule", "derive", "kw", "shape", "pos", "split")}, messages=ev["msgs"], tlc=text,
                                files={"program.rs": srcs[ev["inst"]]}))
         name, r, consts = mc.result()
         rep.add_model(name, r, consts)
